@@ -88,6 +88,29 @@ var modelTable = []modelEntry{
 	{"speakerpb", "NewMemoryDevice", func() any { return speakerpb.NewMemoryDevice(&types.AudioLevel{Gain: 10}) }},
 	{"vendingpb", "NewModel", func() any { return vendingpb.NewModel() }},
 	{"wastepb", "NewModel", func() any { return wastepb.NewModel() }},
+	// server implementations over a model: their unary RPC methods are public methods too
+	{"accesspb", "NewModelServer", func() any { return accesspb.NewModelServer(accesspb.NewModel()) }},
+	{"airqualitysensorpb", "NewModelServer", func() any { return airqualitysensorpb.NewModelServer(airqualitysensorpb.NewModel()) }},
+	{"airtemperaturepb", "NewModelServer", func() any { return airtemperaturepb.NewModelServer(airtemperaturepb.NewModel()) }},
+	{"bookingpb", "NewModelServer", func() any { return bookingpb.NewModelServer(bookingpb.NewModel()) }},
+	{"electricpb", "NewModelServer", func() any { return electricpb.NewModelServer(electricpb.NewModel()) }},
+	{"energystoragepb", "NewModelServer", func() any { return energystoragepb.NewModelServer(energystoragepb.NewModel()) }},
+	{"enterleavesensorpb", "NewModelServer", func() any { return enterleavesensorpb.NewModelServer(enterleavesensorpb.NewModel()) }},
+	{"fanspeedpb", "NewModelServer", func() any { return fanspeedpb.NewModelServer(fanspeedpb.NewModel()) }},
+	{"hailpb", "NewModelServer", func() any { return hailpb.NewModelServer(hailpb.NewModel()) }},
+	{"lightpb", "NewModelServer", func() any { return lightpb.NewModelServer(lightpb.NewModel()) }},
+	{"metadatapb", "NewModelServer", func() any { return metadatapb.NewModelServer(metadatapb.NewModel()) }},
+	{"metadatapb", "NewCollectionServer", func() any { return metadatapb.NewCollectionServer(metadatapb.NewCollection()) }},
+	{"meterpb", "NewModelServer", func() any { return meterpb.NewModelServer(meterpb.NewModel()) }},
+	{"modepb", "NewModelServer", func() any { return modepb.NewModelServer(modepb.NewModel()) }},
+	{"occupancysensorpb", "NewModelServer", func() any { return occupancysensorpb.NewModelServer(occupancysensorpb.NewModel()) }},
+	{"onoffpb", "NewModelServer", func() any { return onoffpb.NewModelServer(onoffpb.NewModel()) }},
+	{"openclosepb", "NewModelServer", func() any { return openclosepb.NewModelServer(openclosepb.NewModel()) }},
+	{"parentpb", "NewModelServer", func() any { return parentpb.NewModelServer(parentpb.NewModel()) }},
+	{"presspb", "NewModelServer", func() any { return presspb.NewModelServer(presspb.NewModel(traits.PressedState_UNPRESSED)) }},
+	{"publicationpb", "NewModelServer", func() any { return publicationpb.NewModelServer(publicationpb.NewModel()) }},
+	{"vendingpb", "NewModelServer", func() any { return vendingpb.NewModelServer(vendingpb.NewModel()) }},
+	{"wastepb", "NewModelServer", func() any { return wastepb.NewModelServer(wastepb.NewModel()) }},
 }
 
 func (e modelEntry) key() string { return e.Pkg + "." + e.Ctor }
